@@ -1,5 +1,5 @@
 (* C17 model runner.  One case per line:
-   <id> T|A|W|U|u <pred> <maxretry> <minw> <maxw> <tbl> <dflt> <cancel> <bodykind> <hexbody> <script> <opts>
+   <id> T|A|W|V|U|u|X <pred>    (V: auth client, token for the request's own scope cached: same re-send structure as A) <maxretry> <minw> <maxw> <tbl> <dflt> <cancel> <bodykind> <hexbody> <script> <opts>
         opts    harness-only options the code under test must not depend on (u = ContentLength left
                 unknown, method=..., preauth = auth client stack with Authorization preset); ignored here
         tbl     comma separated integers, or -
@@ -132,7 +132,7 @@ let guarded = exp_backoff_guarded
 let () =
   iter_lines (fun l ->
     match split_ws l with
-    | [id; ("T" | "A" | "W" | "U" | "u") as op; pred; mr; mn; mx; tbl; dflt; cn; kind; body; script; _opts] ->
+    | [id; ("T" | "A" | "W" | "V" | "U" | "u" | "X") as op; pred; mr; mn; mx; tbl; dflt; cn; kind; body; script; _opts] ->
       let p = table_policy (parse_pred pred) (z_of_string mr) (z_of_string mn) (z_of_string mx)
           (List.map z_of_string (split_on ',' tbl)) (z_of_string dflt) in
       let manifest, kind' =
@@ -143,9 +143,10 @@ let () =
       let bd = match manifest with Some a -> manifest_push_body a bd0 | None -> bd0 in
       let sc = List.map parse_beh (split_on ';' script) in
       let cn = parse_cancel cn in
-      if op = "U" || op = "u" then begin
-        (* blob push through the Repository: U = auth client, u = plain retrying client *)
-        let u = blob_push (op = "U") p cn bd sc in
+      if op = "U" || op = "u" || op = "X" then begin
+        (* blob push through the Repository: U = auth client, u = plain retrying client,
+           X = auth client whose cache already holds the token for the push's scope *)
+        let u = blob_push_gen (op <> "u") (op = "X") p cn bd sc in
         let atts a = show_attempts_list bd.bdata a in
         let put1, put2 = match u.u_put with
           | Some a -> atts (attempts a.a_first), atts (attempts a.a_second)
